@@ -219,13 +219,16 @@ def run(tier):
   for s in specs:
     if only and only not in s.name:
       continue
-    comps = compositions(n, 3)
+    ns = n
+    if s.max_comps and tier != 'quick':
+      ns = 3        # word-choice specs (TopKWordNGrams): 4 texts exceed the 40000-path budget; thorough = all compositions of 3 texts
+    comps = compositions(ns, 3)
     if s.max_comps and tier == 'quick':
       # diverse fixed subset: all-separate shards, 2+1, batches inside a shard, empty shard in the middle
       pref = [[[1]] * n, [[n - 1], [1]], [[1] * (n - 1), [1]], [[1], [], [n - 1]]]
       comps = [c for c in pref if c in comps][:s.max_comps]
     for comp in comps:
-      jobs.append((s.name, n, comp, tier, common.seed()))
+      jobs.append((s.name, ns, comp, tier, common.seed()))
   rep.bounds(rows=n, max_shards=3, compositions=len(compositions(n, 3)), metrics=[s.name for s in specs],
              label_domain='{0,1,2}', note='every composition of the rows into <=3 shards x batches, incl. empty shards; NaN pattern decided per element (2^n case split) for NaN-capable metrics')
   rep.outside('floating-point rounding (reals are exact)', '+-inf intermediate values (paths cut and counted in paths_cut_outside_model)',
